@@ -54,7 +54,7 @@ def meta(tier):
                 'references = .byte name, constants, .org, .memzone, 6 catalogue includes, 6 ill-named labels) up to the depth '
                 'bound, each in two variants (as is / with closing definitions for referenced-but-undefined global and file '
                 'labels, which makes them forward references); expected = value of the unique visible definition or rejection; '
-                'non-trivial = history in which one name is defined in two scopes or referenced outside the defining scope; '
+                'plus labels / constants named like a register under 4 register spellings (lower, upper, mixed case) x 5 positions (must be rejected) and near-miss names (accepted); non-trivial = history in which one name is defined in two scopes or referenced outside the defining scope; '
                 'states = distinct reference label tables',
         'bounds': {'alphabet': [str(s) for s in sigma(0)], 'depth_full': 3 if q else 4, 'depth_core': 4 if q else 5,
                    'core_alphabet': [str(sigma(0)[i]) for i in CORE_IDX],
@@ -149,6 +149,56 @@ def shard(acc, tier, idx, n):
             files2, extra = build(h, True)
             if extra:
                 run_program(acc, PARAMS, ISA, files2, clause=clause, nontrivial=(h, 'closed') if nt else None, sample=False)
+    register_names(acc, idx, n)
+
+
+def register_names(acc, idx, n):
+    """A label or constant named exactly like a register of the definition is rejected, however the definition spells its registers
+    (lower case, upper case, mixed) and wherever the label stands (own line, in front of a statement, constant, second in the file,
+    in an included file); the same names with one more character are ordinary names."""
+    import itertools
+    from mc.judges import judge_expect
+    from mc.world import Case
+    ctr = 0
+    for regs in (('a', 'x', 'sp'), ('A', 'X', 'SP'), ('Ra', 'rX', 'Sp'), ('acc', 'IX')):
+        isa = {'general': {'address_size': 16, 'endian': 'little', 'registers': list(regs), 'min_version': '0.3.0'},
+               'operand_sets': {'imm': {'operand_values': {'i': {'type': 'numeric', 'argument': {'size': 8, 'byte_align': True}}}}},
+               'instructions': {'nop': {'bytecode': {'value': 0xEA, 'size': 8}}}}
+        for r in regs:
+            forms = {
+                'label on its own line': [f'{r}:', '    nop'],
+                'label in front of a statement': [f'{r}: nop'],
+                'constant': [f'{r} = 5', '    nop'],
+                'label after other definitions': ['first:', '    nop', 'K1 = 2', f'{r}:', '    nop'],
+                'label in an included file': ['first:', '    nop', '#include "rn.asm"'],
+            }
+            for fname, lines in forms.items():
+                ctr += 1
+                if ctr % n != idx:
+                    continue
+                files = {'main.asm': '\n'.join(lines + ['    .byte $EE']) + '\n'}
+                if 'include' in fname:
+                    files['rn.asm'] = f'{r}:\n    nop\n'
+                case = Case(isa, files)
+                out = acc.run(case)
+                acc.transition()
+                spec = {'expect': 'REJECT', 'why': f'{r} is a register of the definition (registers {list(regs)})', 'form': fname}
+                msg = judge_expect(spec, [out])
+                if msg:
+                    acc.violation([case], spec, f'{fname} named {r} with registers {list(regs)}: {msg}', [out])
+                acc.judge(clause='rejected-name', nontrivial_key=('regname', regs, r, fname))
+            for other in (r + '1', r + '_', '_' + r, 'q' + r):
+                ctr += 1
+                if ctr % n != idx:
+                    continue
+                case = Case(isa, f'{other}:\n    nop\n    .2byte {other}\n')
+                out = acc.run(case)
+                acc.transition()
+                spec = {'expect': 'OK', 'image_hex': 'ea0000', 'why': f'{other} is not a register name'}
+                msg = judge_expect(spec, [out])
+                if msg:
+                    acc.violation([case], spec, f'label {other} with registers {list(regs)}: {msg}', [out])
+                acc.judge(clause='resolved', nontrivial_key=('regname-ok', regs, other))
 
 
 def judge(spec, outcomes):
